@@ -73,7 +73,7 @@ def record_sequence(rng, nops, nkeys, cap):
 def attributes_leg(c, rng, quick):
     c.mc('Attributes', attr_cfg(4 if quick else 5), label='3 keys, caps {0,1,2,unbounded}', must_cover=['Freeze'])
     traces = []
-    for _ in range(150 if quick else 3000):
+    for _ in range(150 if quick else 15000):
         traces.append(record_sequence(rng, rng.choice([5, 20, 80, 300]), rng.choice([2, 4, 12]), rng.choice([-1, 0, 1, 2, 3, 8])))
     consts = dict(Caps=tlc.Lit('{}'), NoCap=tlc.Lit('NoCap'), MaxOps=100000,
                   GoodKeys={'k%d' % i for i in range(1, 13)})
